@@ -42,7 +42,7 @@ def limit_tests(body, adt, buf_field):
             cy = info[y]
             if cy.get('kind') == 'const' and (cy.get('def') or '').split('::')[-1] == 'MAX_BUFFER_SIZE':
                 vx = info[x]
-                is_len = vx.get('kind') == 'call' and vx['callee'].get('name') in ('len', 'capacity') and \
+                is_len = vx.get('kind') == 'call' and vx['callee'].get('name') == 'len' and \
                     C.trace_field(body, vx['args'][0], adt) == buf_field
                 eq_len = False
                 if not is_len and vx.get('kind') == 'place':
